@@ -124,6 +124,15 @@ Theorem cavities_decidable : forall super pts, cavities_okb super pts = true -> 
 Proof. exact cavities_okb_ok. Qed.
 Print Assumptions cavities_decidable.
 
+(* a repeated input point (excluded by the statement's "distinct points") cannot produce a degenerate
+   triangle: while the invariant holds its cavity is empty and the insertion is a no-op *)
+Theorem bw_duplicate_ignored : forall P T i j (old : nat -> Prop),
+  (forall t k, In t T -> old k -> in_circb P t (nth k P pzero) = false) -> old j ->
+  fst (nth i P pzero) == fst (nth j P pzero) -> snd (nth i P pzero) == snd (nth j P pzero) ->
+  insert P T i = T.
+Proof. exact duplicate_ignored. Qed.
+Print Assumptions bw_duplicate_ignored.
+
 (* ---- 7. "triangulation OF THE INPUT" is not always met (known finding
    triangulation:finite-super-triangle-drops-hull-triangles): on these six points in general position
    the run meets every hypothesis above and its six triangles satisfy the four conjuncts, but the
